@@ -837,7 +837,9 @@ std::string RunFault(const JVal& scn, const std::string& doc, const std::string&
 		const bool streamIn = kind == "failat" || kind == "throwat" || (kind == "probe" && !isSave && scn.HasMember("stream") && scn["stream"].GetBool()) || (kind == "alloc" && !isSave && scn.HasMember("stream") && scn["stream"].GetBool());
 		const bool streamOut = kind == "ofailat" || kind == "othrowat" || (isSave && scn.HasMember("stream") && scn["stream"].GetBool());
 		if (!isSave && streamIn) holder = MakeStream(kind == "failat" || kind == "throwat" ? kind : "short3", doc, static_cast<size_t>(k));
-		if (isSave && streamOut) { obuf = std::make_unique<FailingOutBuf>(kind == "ofailat" || kind == "othrowat" ? static_cast<size_t>(k) : static_cast<size_t>(-1), kind == "othrowat"); ostr = std::make_unique<std::ostream>(obuf.get()); }
+		if (isSave && streamOut) { obuf = std::make_unique<FailingOutBuf>(kind == "ofailat" || kind == "othrowat" ? static_cast<size_t>(k) : static_cast<size_t>(-1), kind == "othrowat"); ostr = std::make_unique<std::ostream>(obuf.get());
+			// the caller may have asked the stream to throw on errors (scenario flag "oexc")
+			if (scn.HasMember("oexc") && scn["oexc"].GetBool()) ostr->exceptions(std::ios_base::badbit | std::ios_base::failbit); }
 		liveBefore = AllocLive();
 		ScopeRecordStart();
 		AllocArm(kind == "alloc" ? k : -1);
